@@ -35,6 +35,7 @@ func runC16(p *Prog, r *Report) {
 	c16IndexInRange(p, r)
 	c16EdgeFilter(p, r)
 	c16NamespaceAgreement(p, r)
+	c16NamespaceSplit(p, r)
 	c16ResolveOrder(p, r)
 	c16DegreeSymmetry(p, r)
 	visitedScopeRule(p, r, "R16.1-visited-scope", 2, pValidate, pResolved)
@@ -2067,4 +2068,50 @@ func c16NamespaceAgreement(p *Prog, r *Report) {
 	}
 	r.Check(good, rule, "resolved.resolverState.detectCommonTypeCycles:namespace", p.pos(det.Pos()), "the detector resolves a type's references relative to extractNamespace of its table key",
 		"the cycle detector does not resolve a common type's references relative to the namespace of its table key")
+}
+
+// R16.2-namespace-split: a qualified name is built as namespace + "::" + base name, where the namespace itself may contain
+// "::" and the base name never does. Whoever takes such a name apart again must therefore cut at the LAST separator. A
+// helper that cuts at the first one (strings.Cut, strings.Index, strings.SplitN with the separator "::") gives `A` for
+// `A::B::T`: the cycle detector then looks the references of types in namespace A::B up under A, finds nothing, records
+// no edge — and the inliner, which is handed the real namespace, follows the cycle until the stack is gone.
+func c16NamespaceSplit(p *Prog, r *Report) {
+	const rule = "R16.2-namespace-split"
+	pkgs := map[string]bool{pResolved: true, pValidate: true, pSchemaPar: true, pSchema: true}
+	last, bad := 0, 0
+	var fns []*ssa.Function
+	for _, fn := range p.Funcs {
+		if pkgs[fnPkgPath(fn)] && len(fn.Blocks) > 0 {
+			fns = append(fns, fn)
+		}
+	}
+	sort.Slice(fns, func(i, j int) bool { return fns[i].String() < fns[j].String() })
+	for _, fn := range fns {
+		for _, cl := range callsIn(fn) {
+			f := cl.Common().StaticCallee()
+			if f == nil || fnPkgPath(f) != "strings" {
+				continue
+			}
+			sep := false
+			for _, a := range cl.Common().Args {
+				if s, ok := constString(a); ok && s == "::" {
+					sep = true
+				}
+			}
+			if !sep {
+				continue
+			}
+			switch f.Name() {
+			case "LastIndex":
+				last++
+				r.OK(rule, fnQual(fn)+":strings.LastIndex", p.pos(cl.Pos()), "the name is cut at its last separator")
+			case "Cut", "Index", "SplitN", "SplitAfterN", "CutPrefix":
+				bad++
+				r.Viol(rule, fnQual(fn)+":strings."+f.Name(), p.pos(cl.Pos()), fnShort(fn)+" takes a qualified name apart with strings."+f.Name()+"(…, \"::\"), i.e. at the FIRST separator: for a type in a nested namespace (A::B::T) the namespace comes out as A, so references inside its body are looked up in the wrong namespace — the common-type cycle detector misses the cycle and the inliner recurses without end")
+			}
+		}
+	}
+	if last == 0 && bad == 0 {
+		r.Undec(rule, "namespace-of-a-path", "-", "no function takes a qualified name apart at \"::\" any more: the anchor of this rule (the helper that gives the namespace of a path) is gone")
+	}
 }
